@@ -306,6 +306,10 @@ def large_graphs():
     out.append(("grid8x8", g * g, ge))
     for k, (a, b, m) in ((11, (1, 3, 17)), (12, (3, 1, 19)), (13, (2, 2, 17))):
         out.append((f"K{k}", k, [(i, j, (a * i * j + b * (i + j)) % m + 1) for i in range(k) for j in range(i + 1, k)]))
+    # dense graphs on which a lazy Prim queue holds several hundred entries (one per crossing edge ever seen)
+    out.append(("K36_quadratic_weights", 36, [(i, j, 1 + (i * i + 3 * j * j + i * j) % 97) for i in range(36) for j in range(i + 1, 36)]))
+    out.append(("K60_distance_weights", 60, [(i, j, j - i) for i in range(60) for j in range(i + 1, 60)]))
+    out.append(("three_nodes_270_parallel_edges", 3, [(0, 1, 1000 - k) for k in range(130)] + [(1, 2, 500 + (k * 7) % 131) for k in range(130)] + [(0, 2, 1 + k) for k in range(10)]))
     out.append(("two_K6_and_isolated", 13, [(i, j, (i + j) % 4 + 1) for i in range(6) for j in range(i + 1, 6)] + [(6 + i, 6 + j, (i * j) % 4 + 1) for i in range(6) for j in range(i + 1, 6)]))
     return out
 
@@ -341,6 +345,9 @@ def _large_chunk(params, lo, hi):
             adj[v].append((u, w))
         runs.append(("prim", lambda: prim(adj)))
         runs.append(("prim_from_last", lambda: prim(adj, start=n - 1)))
+        if n >= 3:
+            runs.append(("prim_from_middle", lambda: prim(adj, start=n // 2)))
+            runs.append(("prim_from_third", lambda: prim(adj, start=n // 3)))
         for fname, fn in runs:
             r["n"] += 1
             r["nontrivial"] += 1
